@@ -57,7 +57,24 @@ def gen_case(g, prop):
                 d = g.choice(dirs); pats.append(g.choice(['**/%s/*.cmake' % d[-1], '**/%s/*' % d[-1], '{INP}/%s/*.cmake' % '/'.join(d), '%s/' % d[-1], '**/%s/*.[cC]*' % d[-1]]))
             elif files:
                 f = g.choice(files); pats.append(g.choice([f[-1], '**/' + f[-1], '{INP}/' + '/'.join(f), '*' + f[-1][-6:], f[-1].upper() if g.random() < 0.2 else f[-1]]))
+    hidden = []
+    if prop in ('C13', 'C14', 'C15', 'C17') and g.random() < 0.3:
+        # symbolic links to directories outside the input tree: documented like directories when input.follow_symlinks is on,
+        # otherwise as if they were not there
+        st['follow'] = g.random() < 0.4
+        dirs = [([], children)]
+        def alld(ch, rel):
+            for c in ch:
+                if 'children' in c: dirs.append((rel + [c['name']], c['children'])); alld(c['children'], rel + [c['name']])
+        alld(children, [])
+        for _ in range(g.randint(1, 2)):
+            rel, ch = g.choice(dirs); nm = g.choice(['lnk', 'alias', 'zlink', 'aa_link'])
+            if any(c['name'].lower() == nm for c in ch) or any(h['rel'] == rel and h['name'] == nm for h in hidden): continue
+            tgt = T.gen_dir(g, 2, max_depth=3, want_cmake=g.random() < 0.8)
+            if st['follow']: ch.append(dict(name=nm, children=tgt, dirlink=True))
+            else: hidden.append(dict(rel=rel, name=nm, children=tgt))
     inp = dict(kind='dir', name=dname, children=children, spelled=g.choice(['abs', 'rel', 'dot']) if prop in ('C12', 'C17') else 'abs')
+    if hidden: inp['hidden_links'] = hidden
     if prop in ('C12', 'C18', 'C17') and g.random() < 0.2:
         f = g.choice(T.NAMES + (['', ''] if prop in ('C17', 'C12') else [])) + g.choice(['.cmake', '.CMake', '.cmake', '.txt'])     # '' : a file named just `.cmake`
         if prop == 'C17' and g.random() < 0.35: f = g.choice(['.cmake', '.CMake'])      # empty title and module name: nothing may stand in for them
